@@ -31,6 +31,8 @@ pub(crate) struct Worker<T: Sync + Send + 'static> {
     pub(crate) pattern: MultiPattern,
     pub(crate) canceled: Arc<AtomicBool>,
     pub(crate) should_notify: Arc<AtomicBool>,
+    /// set once a run took its (only) look at `should_notify`, see `Nucleo::tick_inner`
+    pub(crate) notify_decided: Arc<AtomicBool>,
     pub(crate) was_canceled: bool,
     pub(crate) last_snapshot: u32,
     notify: Arc<(dyn Fn() + Sync + Send)>,
@@ -73,6 +75,7 @@ impl<T: Sync + Send + 'static> Worker<T> {
             pattern: MultiPattern::new(cols as usize),
             canceled: Arc::new(AtomicBool::new(false)),
             should_notify: Arc::new(AtomicBool::new(false)),
+            notify_decided: Arc::new(AtomicBool::new(false)),
             was_canceled: false,
             notify,
             items: Arc::new(boxcar::Vec::with_capacity(2 * 1024, cols)),
@@ -173,7 +176,8 @@ impl<T: Sync + Send + 'static> Worker<T> {
             verif_point!(RunAfterResetMatches);
             self.process_new_items_trivial();
             verif_point!(RunBeforeNotifyCheck);
-            if self.should_notify.load(atomic::Ordering::Relaxed) {
+            self.notify_decided.store(true, atomic::Ordering::SeqCst);
+            if self.should_notify.load(atomic::Ordering::SeqCst) {
                 (self.notify)();
             }
             verif_point!(RunAfterNotify);
@@ -259,7 +263,8 @@ impl<T: Sync + Send + 'static> Worker<T> {
             self.matches
                 .truncate(self.matches.len() - take(unmatched.get_mut()) as usize);
             verif_point!(RunBeforeNotifyCheck);
-            if self.should_notify.load(atomic::Ordering::Relaxed) {
+            self.notify_decided.store(true, atomic::Ordering::SeqCst);
+            if self.should_notify.load(atomic::Ordering::SeqCst) {
                 (self.notify)();
             }
             verif_point!(RunAfterNotify);
